@@ -1238,6 +1238,9 @@ def r919(ctx):
 
 
 def run(ctx):
+    ctx.rule("R-9.21", "the interface tests of a propagation run on the frames' own order parameter: the system carries the direction of the propagation before it starts (shared with C12 R-12.27)", floor=1)
+    from . import c12 as _c12p
+    ctx.attempt(_c12p.direction_flag_set, ctx, "R-9.21", " - accepted paths start or end inside the interfaces or have interior frames outside (velocity-dependent order parameters)")
     ctx.rule("R-9.20", "an accepted path contains its shooting point: frame 0 of every propagation is the phase point it was started from, for every value of subcycles (in-process engines; shared with C12 R-12.23)", floor=2)
     from . import c12 as _c12n
     ctx.attempt(_c12n.frame_cadence, ctx, "R-9.20", " - shoot / wire fencing / the zero swaps paste segments assuming frame 0 is the start point: the accepted path does not contain its shooting point and has a hole of 3*subcycles-2 MD steps around it")
@@ -1291,6 +1294,7 @@ def run(ctx):
 
 
 VARIANTS = [
+    B("c09-propagation-direction-not-stored-on-the-system", "infretis/classes/engines/enginebase.py", "        system.vel_rev = reverse\n        # Propagate from this point:", "        # Propagate from this point:", "R-9.21", control=True, why="seeded C09_p"),
     B("c09-turtle-first-frame-after-a-block", "infretis/classes/engines/turtlemdengine.py", "            if (i) % (self.subcycles) == 0:", "            if (i + 1) % (self.subcycles) == 0:", "R-9.20", control=True, why="seeded C09_n"),
     B("c09-end-point-from-last-order-component", PATH, "        if self.phasepoints[-1].order[0] <= left:", "        if self.phasepoints[-1].order[-1] <= left:", "R-9.19", control=True, why="seeded C09_m"),
     B("c09-run-md-minus-interface-or-false", TIS, '                picked[ens_num]["ens"]["tis_set"]["lambda_minus_one"],', '                picked[ens_num]["ens"]["tis_set"]["lambda_minus_one"] or False,', "R-9.18", control=True, why="seeded C09_l"),
